@@ -11,7 +11,12 @@ use std::collections::HashSet;
 const NAME_PARTS: [&str; 7] = ["shared", "x.bin", "a.b.c", "", "with space", "trailing.", "ünï.cödé"];
 
 fn sequential(ctx: &mut Ctx) {
-    for name in NAME_PARTS {
+    // Short parts, and parts around the usual 255-byte file-name limit (the function only builds a path).
+    let mut parts: Vec<String> = NAME_PARTS.iter().map(|s| s.to_string()).collect();
+    for len in [100usize, 240, 250, 255, 256, 300] {
+        parts.push("n".repeat(len));
+    }
+    for name in parts.iter().map(|s| s.as_str()) {
         let case = || json!({"Sequential": name});
         ctx.announce(case);
         let got = guard(|| {
